@@ -22,6 +22,7 @@ CLIENT_FAMILIES = {
     "persister": ["cp", "cp", "mk", "cv"],
     "curator": ["curve", "fixed", "fixed", "mk"],
     "saboteur": ["flt"],
+    "registrar": ["reg"],
 }
 
 
@@ -47,6 +48,11 @@ class ValueGen:
         self.limited = cfg.get("limited_cats", [])  # [(category, qt)] registered at set-up
         self.restarts_left = cfg.get("restarts", 0)
         self.restart_at = cfg.get("restart_at", [])
+        self.dyn_cats = []  # [(category, qt)] requested by the registrar client during the run
+        self.legacy = W.legacy_spellings(info) if cfg["world"] == "W-POSC" else []
+        self.legacy_by_qt = {}
+        for leg, _cur, q in self.legacy:
+            self.legacy_by_qt.setdefault(q, []).append(leg)
 
     # --------------------------------------------------------------- state transfer (restart)
     def __getstate__(self):
@@ -58,12 +64,19 @@ class ValueGen:
 
     def unit_of(self, b, other_than=None):
         us = [x for x in b[1] if x != other_than] or list(b[1])
-        if self.rng.random() < 0.1:
+        r = self.rng.random()
+        if r < 0.1:
             return self.rng.choice(self.info[b[0]]["units"])
+        if r < 0.16 and self.legacy_by_qt.get(b[0]):
+            # a legacy spelling of a unit of this type: accepted wherever a unit string is taken
+            return self.rng.choice(self.legacy_by_qt[b[0]])
         return self.rng.choice(us)
 
     def cat_of(self, b):
         cs = list(b[2]) + [c for c, q in self.limited if q == b[0]]
+        if self.dyn_cats:
+            db = _db_now()
+            cs += [c for c, q in self.dyn_cats if q == b[0] and db.IsValidCategory(c)]
         return self.rng.choice(cs)
 
     def basis_for_qt(self, qt):
@@ -88,6 +101,11 @@ class ValueGen:
         q = M.quantity_of(obj)
         qt = q.GetQuantityType() if q is not None else None
         cands = [b for b in self.basis if b[0] != qt]
+        if self.legacy and self.rng.random() < 0.2:
+            # a unit of another quantity type written in a legacy spelling
+            far = [leg for leg, _cur, q in self.legacy if q != qt]
+            if far:
+                return self.rng.choice(far)
         if not cands:
             return None
         return self.unit_of(self.rng.choice(cands))
@@ -193,7 +211,7 @@ class ValueGen:
                 not op.get("f")
                 and self.cfg.get("intr_rate", 0) > 0
                 and rng.random() < self.cfg["intr_rate"]
-                and not op["k"].startswith(("curve.set", "flt.", "caller."))
+                and not op["k"].startswith(("curve.set", "flt.", "caller.", "reg."))
             ):
                 op["intr"] = int(min(400, max(1, rng.expovariate(1.0 / self.cfg.get("intr_mean", 40)))))
                 op["f"] = "F7.interrupt"
@@ -347,8 +365,29 @@ class ValueGen:
         b = self.qt()
         u, c = self.unit_of(b), self.cat_of(b)
         form = rng.choice(
-            ["u", "u", "uc", "uc", "ucc", "nonec", "list1", "list", "ctor", "derived", "derived", "empty", "unknown", "unknown_c", "area", "legacy", "reuse"]
+            ["u", "u", "uc", "uc", "ucc", "nonec", "list1", "list", "ctor", "derived", "derived", "twin", "twin", "empty", "unknown", "unknown_c", "area", "legacy", "reuse"]
         )
+        if form == "twin":
+            # the composing map of a quantity that already exists (e.g. the by-product of arithmetic),
+            # requested again explicitly: with another caption, without caption, or as it is
+            src = self.pick(sim, lambda v: M.quantity_of(v) is not None and M.quantity_of(v).IsDerived())
+            if src is None:
+                form = "derived"
+            else:
+                qsrc = M.quantity_of(src[1])
+                od = {"OD": [[cat, {"L": [ue[0], ue[1]]}] for cat, ue in qsrc.GetCategoryToUnitAndExps().items()]}
+                cap = rng.choice([None, "cap D", "cap E", qsrc.GetUnknownCaption() or None])
+                if rng.random() < 0.5:
+                    op = self.op("mk.q.derived", "Quantity", "CreateDerived", [od], kw={"unknown_unit_caption": cap} if cap else None)
+                else:
+                    op = self.op("mk.q.derived.obtain", "units", "ObtainQuantity", [od, None] + ([cap] if cap else []))
+                op["x"] = [{"o": "q_request", "p": "C07", "id": "C07.request_honoured", "form": "derived" if op["k"] == "mk.q.derived" else "derived_obtain"}]
+                key = repr((op["t"], op["m"], op["a"], op.get("kw")))
+                if key in self.requests:
+                    op["x"].append({"o": "same_as", "p": "C07", "id": "C07.intern_identity", "ref": self.requests[key]})
+                else:
+                    self.requests[key] = self.i
+                return op
         if form == "reuse":
             # a caller builds one dict, requests a derived quantity, edits ITS OWN dict and re-uses it
             if getattr(self, "plan", None):
@@ -436,10 +475,12 @@ class ValueGen:
             op = self.op("mk.q.legacy", "units", "ObtainQuantity", [rng.choice(sorted(set(cands)))])
         if op is None:
             return None
+        if form in ("u", "uc", "ucc", "nonec", "legacy", "ctor", "derived", "list", "list1", "unknown_c"):
+            op["x"] = [{"o": "q_request", "p": "C07", "id": "C07.request_honoured", "form": form}]
         if intern:
             key = repr((op["t"], op["m"], op["a"], op.get("kw")))
             if key in self.requests:
-                op["x"] = [{"o": "same_as", "p": "C07", "id": "C07.intern_identity", "ref": self.requests[key]}]
+                op["x"] = op.get("x", []) + [{"o": "same_as", "p": "C07", "id": "C07.intern_identity", "ref": self.requests[key]}]
             else:
                 self.requests[key] = self.i
         return op
@@ -914,6 +955,48 @@ class ValueGen:
         spec = [dict(s, o=s["o"].replace("_arg", "_target")) for s in xid]
         return self.op("cp." + m, ref(x[0]), m, [], x=spec)
 
+    # --------------------------------------------------------------- reg: a plugin registers things
+    def g_reg(self, sim):
+        """Registrations in the middle of a value history (C05: "at any point inside an arbitrary
+        sequence of other operations"): most of them must be refused by the database; the accepted
+        ones add categories with fresh names.  No oracle of its own: what is checked is that the
+        incompatible requests issued afterwards are still refused."""
+        rng = self.rng
+        b = self.qt()
+        others = [x for x in self.basis if x[0] != b[0]]
+        n = len(self.dyn_cats)
+        form = rng.choice(["unit_dup", "unit_dup", "base_dup", "cat_dup", "cat_foreign_default", "cat_foreign_valid", "cat_new", "cat_new", "cat_copy", "cat_bad_limits"])
+        if form in ("unit_dup", "base_dup"):
+            sym = self.rng.choice(rng.choice(others)[1]) if (others and rng.random() < 0.8) else rng.choice(b[1])
+            if form == "unit_dup":
+                k = rng.choice([2.0, 10.0, 0.5])
+                return self.op("reg.AddUnit.dup", "db", "AddUnit", [b[0], "sim unit %d" % self.n, sym, "%%f * %r" % k, "%%f / %r" % k])
+            return self.op("reg.AddUnitBase.dup", "db", "AddUnitBase", [b[0], "sim base %d" % self.n, sym])
+        if form == "cat_dup":
+            return self.op("reg.AddCategory.dup", "db", "AddCategory", [self.cat_of(b), b[0]])
+        name = "sim cat %d" % n
+        if form == "cat_foreign_default":
+            if not others:
+                return None
+            return self.op("reg.AddCategory.foreign_default", "db", "AddCategory", [name, b[0]], kw={"default_unit": rng.choice(rng.choice(others)[1])})
+        if form == "cat_foreign_valid":
+            if not others:
+                return None
+            vu = [rng.choice(b[1]), rng.choice(rng.choice(others)[1])]
+            rng.shuffle(vu)
+            return self.op("reg.AddCategory.foreign_valid", "db", "AddCategory", [name, b[0]], kw={"valid_units": {"L": vu}})
+        if form == "cat_bad_limits":
+            return self.op("reg.AddCategory.bad_limits", "db", "AddCategory", [name, b[0]], kw={"min_value": 10.0, "max_value": 1.0})
+        self.dyn_cats.append((name, b[0]))
+        if form == "cat_copy":
+            return self.op("reg.AddCategory.copy", "db", "AddCategory", [name], kw={"from_category": self.cat_of(b)})
+        kw = {}
+        if rng.random() < 0.5:
+            kw["valid_units"] = {"L": list(b[1][: rng.randint(1, len(b[1]))])}
+        if rng.random() < 0.4:
+            kw["default_unit"] = rng.choice(kw["valid_units"]["L"] if "valid_units" in kw else b[1])
+        return self.op("reg.AddCategory.new", "db", "AddCategory", [name, b[0]], kw=kw)
+
     # --------------------------------------------------------------- flt: rejected calls (F1)
     def g_flt(self, sim):
         rng = self.rng
@@ -1007,6 +1090,10 @@ class ValueGen:
                 return None
             b2 = rng.choice(others)
             c, fu = self.cat_of(b1), self.unit_of(b2)
+            if self.legacy and rng.random() < 0.15:
+                far = [leg for leg, _cur, q in self.legacy if q != b1[0]]
+                if far:
+                    fu = rng.choice(far)
             spec = [{"o": "reject", "p": "C05", "id": "C05.loud", "why": "catunit", "category": c, "unit": fu}]
             form = rng.choice(["Scalar.vuc", "Scalar.cvu", "Scalar.cu", "Array.Vuc", "FixedArray.dcVu", "FractionScalar.cvu", "q.uc", "q.ctor", "q.derived", "db.Convert", "db.Convert.container", "db.CheckCategoryUnit", "db.CheckQuantityTypeUnit", "db.CheckValueForCategory"])
             v = self.value()
@@ -1139,6 +1226,12 @@ def _len(a):
         return len(a.GetValues())
     except Exception:
         return -1
+
+
+def _db_now():
+    from barril.units.unit_database import UnitDatabase
+
+    return UnitDatabase.GetSingleton()
 
 
 def sim_qt(unit):
